@@ -111,12 +111,48 @@ theorem select_refines (ps : List Param) (P : Pop) (h : WF ps P) (idxs : List Na
     exact w.addr a (List.mem_of_mem_drop ha)
   · exact w.params
 
+/-- a checkpoint round trip is unobservable (attributes and optimizer learning rates come back by
+    value) and keeps the invariant (the unpickled registry is a fresh object with the same parameters) -/
+theorem reload_refines (ps : List Param) (P : Pop) (h : WF ps P) (i : Nat) :
+    (P.reload i).obs = P.obs ∧ WF ps (P.reload i) := by
+  unfold Pop.reload
+  cases hi : P.agents[i]? with
+  | none => exact ⟨rfl, h⟩
+  | some a =>
+    have ha : a ∈ P.agents := List.mem_of_getElem? hi
+    have hlt := h.addr a ha
+    have hc : P.heap[a.cfg]? = some (P.heap[a.cfg]) := List.getElem?_eq_getElem hlt
+    simp only [hc]
+    refine ⟨?_, ⟨?_, ?_⟩⟩
+    · apply List.ext_getElem?
+      intro j
+      simp only [Pop.obs, List.getElem?_map, List.getElem?_set]
+      by_cases hj : i = j
+      · subst hj
+        have hlen : i < P.agents.length := by
+          rcases List.getElem?_eq_some_iff.mp hi with ⟨h', _⟩; exact h'
+        have hget : P.agents[i] = a := by
+          rcases List.getElem?_eq_some_iff.mp hi with ⟨_, h'⟩; exact h'
+        simp [hlen, Agent.obs, Ckpt.load, Agent.save, hget]
+      · simp [hj]
+    · intro b hb
+      simp only [List.length_append, List.length_singleton]
+      rcases List.mem_or_eq_of_mem_set hb with hb | hb
+      · have := h.addr b hb; omega
+      · rw [hb]; simp [Ckpt.load]
+    · intro c hc'
+      rcases List.mem_append.mp hc' with hc' | hc'
+      · exact h.params c hc'
+      · simp only [List.mem_singleton, Agent.save] at hc'
+        rw [hc']; exact h.params _ (List.getElem_mem hlt)
+
 theorem apply_refines (ps : List Param) (P : Pop) (h : WF ps P) (op : Op) :
     (P.apply .own true op).obs = Spec.apply ps P.obs op ∧ WF ps (P.apply .own true op) := by
   cases op with
   | mutate i k coin => exact mutate_refines ps P h i k coin
   | clone i => exact ⟨(clone_refines ps P h i).1, (clone_refines ps P h i).2.1⟩
   | select idxs => exact select_refines ps P h idxs
+  | reload i => exact reload_refines ps P h i
 
 theorem run_refines (ps : List Param) (ops : List Op) :
     ∀ (P : Pop), WF ps P →
@@ -266,5 +302,82 @@ theorem spec_run_range (ps : List Param) (hps : ∀ p ∈ ps, p.lo ≤ p.hi) (op
     | select idxs =>
       intro a ha
       exact spec_clones_range ps idxs A h a (List.mem_of_mem_drop ha)
+    | reload i => exact h
+
+/-! ### learning-rate coherence: every group of every optimizer carries the agent's attribute -/
+
+/-- every parameter group of every optimizer of the agent steps with the agent's current value of
+    the optimizer's learning-rate attribute -/
+def Coherent (a : SAgent) : Prop :=
+  ∀ o ∈ a.opts, ∀ g ∈ o.groups, a.attrs[o.lr]? = some g
+
+theorem spec_mutate_coherent (ps : List Param) (A : List SAgent) (h : ∀ a ∈ A, Coherent a)
+    (i k : Nat) (coin : Rat) : ∀ a ∈ Spec.mutate ps A i k coin, Coherent a := by
+  intro b hb
+  unfold Spec.mutate at hb
+  cases hi : A[i]? with
+  | none => rw [hi] at hb; exact h b hb
+  | some a =>
+    rw [hi] at hb
+    simp only at hb
+    cases hp : ps[k]? with
+    | none => rw [hp] at hb; exact h b hb
+    | some p =>
+      cases hv : a.attrs[k]? with
+      | none => rw [hp, hv] at hb; exact h b hb
+      | some own =>
+        rw [hp, hv] at hb
+        simp only at hb
+        rcases List.mem_or_eq_of_mem_set hb with hb | hb
+        · exact h b hb
+        · rw [hb]
+          have hklt : k < a.attrs.length := by
+            rcases List.getElem?_eq_some_iff.mp hv with ⟨h', _⟩; exact h'
+          have hcoh := h a (List.mem_of_getElem? hi)
+          intro o' ho' g hg
+          simp only [updAll, List.mem_map] at ho'
+          obtain ⟨o, ho, rfl⟩ := ho'
+          by_cases hk : o.lr = k
+          · rw [if_pos hk] at hg ⊢
+            obtain ⟨e1, _, e3⟩ := setLr_groups o (mutate1 p own coin)
+            rw [e1, hk, List.getElem?_set_self hklt, e3 g hg]
+          · rw [if_neg hk] at hg ⊢
+            simp only
+            rw [List.getElem?_set_ne (Ne.symm hk)]
+            exact hcoh o ho g hg
+
+theorem spec_clones_coherent (idxs : List Nat) :
+    ∀ (A : List SAgent), (∀ a ∈ A, Coherent a) → ∀ a ∈ idxs.foldl Spec.clone A, Coherent a := by
+  induction idxs with
+  | nil => intro A h; exact h
+  | cons i r ih =>
+    intro A h
+    apply ih
+    intro b hb
+    unfold Spec.clone at hb
+    cases hi : A[i]? with
+    | none => rw [hi] at hb; exact h b hb
+    | some a =>
+      rw [hi] at hb
+      rcases List.mem_append.mp hb with hb | hb
+      · exact h b hb
+      · simp only [List.mem_singleton] at hb
+        rw [hb]; exact h a (List.mem_of_getElem? hi)
+
+theorem spec_run_coherent (ps : List Param) (ops : List Op) :
+    ∀ (A : List SAgent), (∀ a ∈ A, Coherent a) → ∀ a ∈ Spec.run ps A ops, Coherent a := by
+  induction ops with
+  | nil => intro A h; exact h
+  | cons op r ih =>
+    intro A h
+    simp only [Spec.run, List.foldl_cons]
+    apply ih
+    cases op with
+    | mutate i k coin => exact spec_mutate_coherent ps A h i k coin
+    | clone i => exact spec_clones_coherent [i] A h
+    | select idxs =>
+      intro a ha
+      exact spec_clones_coherent idxs A h a (List.mem_of_mem_drop ha)
+    | reload i => exact h
 
 end HpMut
